@@ -689,7 +689,10 @@ func (h *handler1) checkPacketLegal(pkt snPkts.Packet) error {
 	// Handler is switched to disconnected state _before_ client
 	// responds to DISCONNECT => we must enable DISCONNECT packet.
 	case *snPkts1.Disconnect:
-		return nil
+		// Only a connected client can go to sleep (DISCONNECT with duration).
+		if snPkt.Duration == 0 {
+			return nil
+		}
 	case *snPkts1.Publish:
 		// QOS 3 packets with short or predefined topics are allowed
 		// without prior CONNECT.
